@@ -154,7 +154,7 @@ func childMain(r *mon.Run, args []string) {
 				childFinish(r)
 			}
 		}
-		v := &seqRun{r: r, variant: "ldb", idx: seq, crash: store, g: twin.g, opaque: twin.opaque, holder: twin.holder}
+		v := &seqRun{r: r, variant: "ldb", idx: seq, crash: store, g: twin.g, opaque: twin.opaque, holder: twin.holder, ns: "ldb-restart"}
 		v.resetMemos()
 		durable := map[common.Hash]bool{}
 		for k := range durableRoots {
